@@ -203,6 +203,80 @@ def scalar_watch_leg(c, wd):
     sys.modules.pop(mod.__name__, None)
 
 
+TYPED_HOST = '''import enum
+
+
+class Level(enum.IntEnum):
+    LOW = 1
+    HIGH = 2
+
+
+class Tagged(str):
+    pass
+
+
+class Amount(float):
+    pass
+
+
+class Count(int):
+    pass
+
+
+def typed(n):
+    level = Level.HIGH
+    tagged = Tagged('abc')
+    tagged.meta = 'origin'
+    amount = Amount(2.5)
+    amount.unit = 'kg'
+    count = Count(7)
+    count.source = 'sensor'
+    return n  # TP:typed
+'''
+
+
+def typed_objects_leg(c, wd):
+    """Objects whose class derives from a scalar type and that carry attributes: real type name, the value's text, and
+    their attributes as children (they are objects, not bare scalars)."""
+    import sys
+    from .. import rig as R
+    mod, path, marks = R.write_host(wd, TYPED_HOST)
+    base = path.rsplit('/', 1)[-1]
+    rg = R.Rig()
+    try:
+        rg.install([{'id': 't', 'path': base, 'line': marks['typed'], 'args': {}, 'watches': ['tagged', 'level']}])
+        res = rg.run(mod.typed, 3, only_file=path)
+        snaps = rg.snapshots()
+        bad = None
+        if res != ('ok', 3) or rg.escaped or len(snaps) != 1:
+            bad = 'no snapshot / host changed: %r %r' % (res, rg.escaped)
+        else:
+            s = snaps[0]
+            by = {v.name: s.var_lookup.get(v.vid) for v in s.frames[0].variables}
+            want = {'level': ('Level', str(mod.Level.HIGH), None), 'tagged': ('Tagged', 'abc', 'meta'),
+                    'amount': ('Amount', '2.5', 'unit'), 'count': ('Count', '7', 'source')}
+            for name, (tname, text, attr) in want.items():
+                v = by.get(name)
+                if v is None or v.type != tname or v.value != text:
+                    bad = 'local %s shows %s, it is a %s with text %r' % (name, (v.type, v.value) if v else None, tname, text)
+                    break
+                kids = [ch.name for ch in v.children]
+                if attr is not None and attr not in kids:
+                    bad = 'local %s (%s) has the attribute %r, the snapshot shows children %s' % (name, tname, attr, kids)
+                    break
+                if attr is None and not kids:
+                    bad = 'local %s (an enum member) shows no attributes at all' % name
+                    break
+        c.traces_validated += 1
+        c.note_case(key=('typed-objects',), nontrivial=True)
+        if bad:
+            p_ = c.save_replay({'direction': 'C2S', 'kind': 'typed-objects', 'what': bad})
+            c.violation('objects derived from scalar types: %s' % bad, p_)
+    finally:
+        rg.close()
+        sys.modules.pop(mod.__name__, None)
+
+
 def run(c):
     quick = c.tier == 'quick'
     rng = random.Random(c.seed)
@@ -228,6 +302,7 @@ def run(c):
     replay_behaviours(c, sim.behaviours, wd, 'e')
     values_leg(c, rng, wd, 300 if quick else 40000)
     scalar_watch_leg(c, wd)
+    typed_objects_leg(c, wd)
 
 
 if __name__ == '__main__':
